@@ -1,8 +1,18 @@
 """Registry entry, manifest texts for C06."""
 
 ENTRY = {'parts': [{'scenario': 'scenarios.s_pool', 'chunk': 6}],
-         'quick': {'runs': 2500, 'budget': 60}, 'thorough': {'runs': 150000, 'budget': 1200}}
+         'quick': {'runs': 2500, 'budget': 55}, 'thorough': {'runs': 150000, 'budget': 1200}}
 
-TEXT = {'level': 'TODO', 'ref': 'DESIGN.md 5 (C06), 4 (S-POOL)', 'note': 'TODO'}
-
-ENABLED = False
+TEXT = {'level': 'Seeded search over soft/hard limit combinations x durations x scans: long jobs over many scan '
+          'periods, programs that catch SoftTimeLimitExceeded and return. The kernel records every SIGUSR1 '
+          '(sender, target, instant). Oracle: per job at most one SIGUSR1 on its behalf, none without a soft '
+          'limit, none after its result was processed, exactly one (and the exception surfacing inside that '
+          "job's program) when a scan fell into [accept+soft, accept+hard) while it ran, "
+          'timeout_callback(soft=True, timeout=effective limit) once, a caught soft limit delivers the value '
+          'normally, per-job limit beats pool default.',
+ 'note': 'Trusted: the simulated kernel (simos) models Linux semaphores, pipes, poll, process table, signals '
+         'and wait statuses faithfully (stub conformance: selftest/conformance.py); BaseProcess._bootstrap '
+         'is replaced by a replica of its exit-code mapping (checked by C19); start method is spawn-like '
+         '(pickled copy). Workers die uncatchably only inside task code or between jobs; pipes do not lose '
+         'bytes. Sampling, not proof.',
+ 'ref': 'DESIGN.md 5 (C06), 3, 4 (S-POOL)'}
